@@ -267,6 +267,73 @@ fn float_case(out: &mut Out, env: &TokEnv, lo: Option<(Dec, bool)>, hi: Option<(
     out.count("float_ranges", 1);
 }
 
+
+/// integer schema with fractional and/or exclusive bounds (normalize_integer_bounds): an integer
+/// literal is accepted exactly when it lies inside the bounds; no integer inside => compile error
+/// (model: IntBounds.rx_int_bounds)
+fn int_frac_case(out: &mut Out, env: &TokEnv, lo: Option<(Dec, bool)>, hi: Option<(Dec, bool)>) {
+    let mut schema = String::from("{\"type\":\"integer\"");
+    if let Some((l, incl)) = &lo {
+        schema.push_str(&format!(",\"{}\":{}", if *incl { "minimum" } else { "exclusiveMinimum" }, l.text()));
+    }
+    if let Some((h, incl)) = &hi {
+        schema.push_str(&format!(",\"{}\":{}", if *incl { "maximum" } else { "exclusiveMaximum" }, h.text()));
+    }
+    schema.push('}');
+    let fl = |d: &Dec| -> i128 { d.mant.div_euclid(10i128.pow(d.scale)) };
+    let a = lo.as_ref().map(|(d, _)| fl(d)).unwrap_or_else(|| hi.as_ref().map(|(d, _)| fl(d)).unwrap_or(0) - 6);
+    let b = hi.as_ref().map(|(d, _)| fl(d)).unwrap_or_else(|| lo.as_ref().map(|(d, _)| fl(d)).unwrap_or(0) + 6);
+    let mut lits: Vec<i128> = if b - a <= 40 && b >= a { ((a - 3)..=(b + 4)).collect() } else { ((a - 3)..=(a + 4)).chain((b - 3)..=(b + 4)).collect() };
+    lits.extend([0, 1, -1]);
+    lits.sort();
+    lits.dedup();
+    let inside = |z: i128| in_range(&Dec { mant: z, scale: 0 }, &lo, &hi);
+    let any_inside = {
+        // the integers inside form an interval around the bounds; the literal list covers both ends
+        lits.iter().any(|&z| inside(z)) || (lo.is_none() || hi.is_none())
+    };
+    // the model reads (dec excl) with excl = !inclusive
+    let bsx = |b: &Option<(Dec, bool)>| match b {
+        Some((d, i)) => list(vec![d.to_sx(), boolean(!*i)]),
+        None => sym("none"),
+    };
+    match matcher_for(env, &schema) {
+        Err(e) => {
+            if e.contains("panic") {
+                out.violation("internal panic compiling an integer schema with fractional bounds", format!("{schema}: {e}"));
+            } else if any_inside {
+                out.violation("integer schema with fractional/exclusive bounds rejected at compile time although an integer satisfies them", schema.clone());
+            }
+            out.case(tagged("intbounds", vec![bsx(&lo), bsx(&hi), list(vec![])]), tagged("err", vec![]), true);
+        }
+        Ok(m) => {
+            if !any_inside {
+                out.violation("integer schema whose bounds contain no integer compiled", schema.clone());
+            }
+            let mut verdicts = vec![];
+            for &z in &lits {
+                let acc = accepts(&m, &z.to_string());
+                let want = inside(z);
+                if acc != want {
+                    out.violation(&format!("integer {z} under {schema}: accepted = {acc}, inside the bounds = {want}"), schema.clone());
+                }
+                verdicts.push(boolean(acc));
+            }
+            for bad in ["1.5", "2.0", "-1.0", "007"] {
+                if accepts(&m, bad) {
+                    out.violation(&format!("integer schema accepts {bad:?}"), schema.clone());
+                }
+            }
+            out.case(
+                tagged("intbounds", vec![bsx(&lo), bsx(&hi), list(lits.iter().map(|z| int(*z as i64)).collect())]),
+                tagged("ok", verdicts),
+                true,
+            );
+        }
+    }
+    out.count("int_frac_ranges", 1);
+}
+
 /// allOf of two multipleOf: the combined step is the exact lcm or the schema is rejected
 /// (model: decimal_lcm with the variant read from numeric.rs)
 pub fn lcm_case(out: &mut Out, env: &TokEnv, a: u64, b: u64) {
@@ -489,7 +556,28 @@ pub fn run(rng: &mut Rng, out: &mut Out, tier: &str) {
         let (lo, hi) = if a.cmp(&b) == std::cmp::Ordering::Greater && r.chance(9, 10) { (b, a) } else { (a, b) };
         let lo = if r.chance(1, 8) { None } else { Some((lo, r.chance(1, 2))) };
         let hi = if r.chance(1, 8) { None } else { Some((hi, r.chance(1, 2))) };
-        float_case(out, &env, lo, hi);
+        float_case(out, &env, lo.clone(), hi.clone());
+        // the same bounds on an integer schema (rounded by normalize_integer_bounds); small magnitudes only
+        let small = |b: &Option<(Dec, bool)>| b.as_ref().map(|(d, _)| d.mant.abs() < 10i128.pow(d.scale) * 1000).unwrap_or(true);
+        if small(&lo) && small(&hi) {
+            int_frac_case(out, &env, lo, hi);
+        }
+    }
+    // integer schemas: every bound k/4 in a window, every inclusive / exclusive combination, one- and two-sided
+    let q: i128 = if tier == "thorough" { 40 } else { 14 };
+    for n in -q..=q {
+        let d = if n % 4 == 0 { Dec { mant: n / 4, scale: 0 } } else if n % 2 == 0 { Dec { mant: n * 5 / 2, scale: 1 } } else { Dec { mant: n * 25, scale: 2 } };
+        for incl in [true, false] {
+            int_frac_case(out, &env, Some((d.clone(), incl)), None);
+            int_frac_case(out, &env, None, Some((d.clone(), incl)));
+            for w in [0i128, 1, 2, 3, 5, 9] {
+                let m2 = n + w;
+                let d2 = if m2 % 4 == 0 { Dec { mant: m2 / 4, scale: 0 } } else if m2 % 2 == 0 { Dec { mant: m2 * 5 / 2, scale: 1 } } else { Dec { mant: m2 * 25, scale: 2 } };
+                for incl2 in [true, false] {
+                    int_frac_case(out, &env, Some((d.clone(), incl)), Some((d2.clone(), incl2)));
+                }
+            }
+        }
     }
     // multipleOf: alone with bounds (exact-arithmetic oracle) and combined under allOf (model: lcm)
     let n = if tier == "thorough" { 3000 } else { 300 };
